@@ -36,7 +36,14 @@ def corpus_list():
     extra = [corpus.G('suppressed-edges', [corpus.Rule('M', corpus.Asg('bs', '+=', corpus.Ref('B'))),
                                            corpus.Rule('B', corpus.S(corpus.Sup(corpus.Str('<')),
                                                                      corpus.Asg('n', '=', corpus.INT),
-                                                                     corpus.Sup(corpus.Str('>'))))])]
+                                                                     corpus.Sup(corpus.Str('>'))))]),
+             # an alias-like match rule referenced first with the suppress operator, then plainly at the
+             # edge of an object
+             corpus.G('alias-suppressed-then-plain', [
+                 corpus.Rule('M', corpus.S(corpus.Asg('hs', '*=', corpus.Ref('H')), corpus.Asg('ds', '+=', corpus.Ref('D')))),
+                 corpus.Rule('H', corpus.S(corpus.Sup(corpus.Ref('Kw')), corpus.Asg('n', '=', corpus.INT))),
+                 corpus.Rule('D', corpus.S(corpus.Ref('Kw'), corpus.Asg('name', '=', corpus.ID), corpus.Ref('Kw'))),
+                 corpus.Rule('Kw', corpus.Ref('Key')), corpus.Rule('Key', corpus.Str('k'))])]
     return [g for g in corpus.ALL if g['name'] in names] + extra
 
 
